@@ -46,7 +46,9 @@ CHECKS = {
              "(bincode encoding of ClusterState modelled byte for byte) round-trips every state whose numbers fit u64, then stays equal under any "
              "further commands, whatever the hash-map iteration order. The adapter half of the statement is FALSE on this tree: "
              "C20_counterexample_adapterSnapshotsEmptyMap (+ C20_adapter_diverges) — known finding, replayed through the real Metadata::restore "
-             "on every run; C20_adapter_model_tied re-checks the translator facts about storage.rs.",
+             "on every run; C20_adapter_model_tied re-checks the translator facts about storage.rs. The model takes snapshot and apply as atomic; the harness probes that "
+             "assumption on the real Metadata: ~25 000 snapshots per run taken while another thread applies 20 000 commands, each restored and required to be a state the sender went through "
+             "(implementation against oracle; not a theorem).",
              note=BASE_NOTE + "bincode/octopii stand-ins; the adapter file itself cannot be built offline (openraft/tokio missing) and is tied by "
              "translator facts only. Partial: the adapter clause is a recorded finding, not a theorem that holds.",
              tech="Lean 4 proof (encode/decode round trip by structural induction) + translator facts + differential correspondence + oracle", ref="§6 C20"),
@@ -92,7 +94,8 @@ CHECKS = {
              "C16_plan_ranges_disjoint_in_block (entries planned back to back into a block are pairwise disjoint), batch_writes_are_applyAll (ties the statement to "
              "the model's writerBatchWrite). Everything else is decided by the double correspondence: every generated program (appends, batches, rejected "
              "operations, both read APIs, peeks, offset reads, clean reopen, process restarts; both geometries) is executed once per backend in separate "
-             "processes; the two output streams must be equal line by line and each must equal the backend-independent model's.",
+             "processes; the two output streams must be equal line by line and each must equal the backend-independent model's. About one program in twenty is a long backlog "
+             "(66-105 one-block entries on one topic, then batch reads with an unlimited budget: more planned ranges than any small fixed-size submission ring holds).",
              note=BASE_NOTE + "The model has one write path and one read path (the decisions are shared code in writer.rs / walrus_read.rs); kernel behaviour "
              "(pread/mmap coherence, io_uring ordering, short reads) is exercised by the runs, not modelled. Sequential callers, no injected faults.",
              tech="Lean 4 proof (commutation of disjoint writes up to permutation, induction over List.Perm) + double differential correspondence (fd vs mmap vs model)", ref="§6 C16"),
@@ -213,7 +216,7 @@ CHECKS = {
              "open: the new process sees exactly the replay of the records appended since the previous open), C21_counterexample (two reopens: vote, committed id, "
              "3 of 4 entries and the peer address are gone; replayed on the real store on every run), C21_nonconsuming_holds (over a reader that starts from the beginning the property holds for "
              "every history). Correspondence: the real WalLogStore / MemLogStoreInner / peer-record code (sliced verbatim from storage.rs and node.rs at build time) over the real WriteAheadLog and "
-             "octopii's vendored engine copy, one child process per segment, ~210 programs per quick run (1500 thorough) compared line by line with LogStore.step; independent acknowledged-state oracle.",
+             "octopii's vendored engine copy, one child process per segment, ~210 programs per quick run (1500 thorough) compared line by line with LogStore.step; independent acknowledged-state oracle. Plus 50 (300) `faulty` programs - a record write of the log underneath fails inside an operation, the process restarts - run against the oracle only (the model has no write failures).",
              note=BASE_NOTE + "openraft's LogId/Vote/Entry/LogState/IOFlushed and the storage traits, tokio and bincode are stand-ins (harness/octo/src/raftshim.rs, harness/shims): the real crates cannot be "
              "built offline. Process restarts only (no machine crash of the vendored engine copy). The bare wrapper is compared only in the way the store uses it (read_all straight after open). "
              "No repair committed: making recovery non-consuming needs a different read API use in octopii, which the baseline suite does not build.",
